@@ -28,7 +28,8 @@ class C15(BaseCheck):
           'the real deserializer, plus (sim) concurrent produce calls through the real serializer+'
           'transport sinks against a simulated broker that answers out of order, in half of the cases with '
           'deadlines that expire while requests are in transit and new calls issued before the late '
-          'answers arrive (correlation-id routing). non-trivial = at least one request parsed and one response decoded; distinct by '
+          'answers arrive, in a third of the cases with the calls issued while the broker connection is still '
+          'being established (correlation-id routing). non-trivial = at least one request parsed and one response decoded; distinct by '
           '(payload classes, acks set, response shapes)')
   ANCHORS = ('scales.kafka.protocol:KafkaProtocol._SerializeProduceRequest',
              'scales.kafka.sink:KafkaTransportSink._BuildHeader',
@@ -37,7 +38,8 @@ class C15(BaseCheck):
              'scales.kafka.sink:KafkaTransportSink._ProcessReply')
   REQUIRED_ANCHORS = ANCHORS
   REQUIRED_CLASSES = ('payloads:none', 'payload:empty', 'payload:large', 'acks:-1', 'acks:0', 'acks:1',
-                      'resp:produce', 'resp:metadata', 'routing', 'routing:timeouts', 'routing:timed-out-in-transit')
+                      'resp:produce', 'resp:metadata', 'routing', 'routing:timeouts', 'routing:timed-out-in-transit',
+                      'routing:while-opening')
   ASSUMPTIONS = ('topics and payloads are bytes (the only form the Python-3 code path and the '
                  'repository\'s own test use)',)
   QUICK_CASES = 640
